@@ -142,3 +142,21 @@ pub fn subpacket_length(data: &[u8]) -> crate::errors::Result<(usize, usize)> {
     let l = crate::packet::SubpacketLength::try_from_reader(&mut r)?;
     Ok((l.len(), data.len() - r.len()))
 }
+
+// ---- C17 (packet framing) -------------------------------------------------------------------
+
+/// `packet::literal_data::LiteralDataFixedGenerator` (binary mode, empty file name, creation time 0)
+/// over `source`, announcing `source_len` octets of data: everything it hands out, or the error.
+pub fn literal_fixed_generator<R: std::io::Read>(
+    source: R,
+    source_len: u32,
+) -> std::io::Result<Vec<u8>> {
+    use std::io::Read;
+
+    let header = crate::packet::LiteralDataHeader::new(crate::packet::DataMode::Binary);
+    let mut gen = crate::packet::LiteralDataFixedGenerator::new(header, source, source_len)
+        .map_err(std::io::Error::other)?;
+    let mut out = Vec::new();
+    gen.read_to_end(&mut out)?;
+    Ok(out)
+}
